@@ -3,6 +3,7 @@ package checks
 import (
 	"encoding/json"
 	"fmt"
+	"strings"
 
 	lockingtypes "github.com/goatnetwork/goat/x/locking/types"
 	"verifharness/engb"
@@ -23,6 +24,7 @@ func c13Configs(thorough bool) []lockCfg {
 	// first token's weight can drop to zero without emptying the set
 	cs = append(cs, lockCfg{Name: "jailed-candidate+tk2-anchor", Powers: []uint64{2}, MaxValidators: 2, Tk2Weight: 3, Tk2Threshold: 0, Candidates: 2,
 		V0Tk2: amt(1), Jailed: []jailSpec{{Btc: theta.MulRaw(49).QuoRaw(10).String()}}, JailSecs: 30})
+	cs = append(cs, lockCfg{Name: "huge-amounts", Powers: []uint64{2, 2}, MaxValidators: 2, Tk2Weight: 3, Tk2Threshold: 0, Candidates: 3, HugeAmounts: true})
 	if thorough {
 		cs = append(cs, lockCfg{Name: "three-tied-max2", Powers: []uint64{2, 2, 2}, MaxValidators: 2, Tk2Weight: 1, Tk2Threshold: 0, Candidates: 4})
 	}
@@ -68,6 +70,24 @@ func lockingOps(c lockCfg, rich bool) []engb.LOp {
 }
 
 func c13Menu(c lockCfg, thorough bool) func(w *engb.World, st *engb.LState, depth int) []engb.LBlock {
+	if c.HugeAmounts {
+		// amounts as large as a 256-bit token balance allows: the power they would give exceeds what
+		// the consensus engine accepts as total voting power (2^60 - 1)
+		cand := len(c.Powers)
+		huge := []engb.LBlock{
+			{Dt: 1},
+			{Dt: 1, Ops: []engb.LOp{{Kind: "lock", Val: 0, Token: 0, Amt: "1200000000000000000000000000000000000"}}},
+			{Dt: 1, Ops: []engb.LOp{{Kind: "lock", Val: cand, Token: 0, Amt: "600000000000000000000000000000000000"}}},
+			{Dt: 1, Ops: []engb.LOp{{Kind: "lock", Val: 0, Token: 0, Amt: "600000000000000000000000000000000000"}}},
+			{Dt: 1, Ops: []engb.LOp{{Kind: "lock", Val: 0, Token: 0, Amt: "115792089237316195423570985008687907853269984665640564039457584007913129639935"}}},
+			{Dt: 1, Ops: []engb.LOp{{Kind: "create", Val: cand}}},
+			{Dt: 1, Ops: []engb.LOp{{Kind: "weight", Token: 0, U64: 2}}},
+			{Dt: 1, Ops: []engb.LOp{{Kind: "weight", Token: 0, U64: 18446744073709551615}}},
+			{Dt: 1, Ops: []engb.LOp{{Kind: "unlock", Val: 0, Token: 0, Amt: "600000000000000000000000000000000000"}}},
+			{Dt: 1, Evidence: []engb.EvSpec{{Val: 0, AgeBlocks: 1, AgeSecs: 1}}},
+		}
+		return func(w *engb.World, st *engb.LState, depth int) []engb.LBlock { return huge }
+	}
 	ops := lockingOps(c, thorough)
 	base := singleOpBlocks(ops, []int64{1, 61})
 	// vote / evidence deviations
@@ -139,6 +159,14 @@ func c13Monitor(r *mc.Run, c lockCfg) engb.Monitor {
 		}
 		if res.Truncated {
 			r.Outcome("truncated-empty-set")
+			return
+		}
+		if res.TxPanic != nil {
+			r.Outcome("request-processing-panics-and-the-message-fails")
+		}
+		if res.ValSetErr != nil && (strings.Contains(res.ValSetErr.Error(), "to prevent clipping/overflow") || strings.Contains(res.ValSetErr.Error(), "exceeds max")) {
+			// the reported power exceeds what the consensus engine accepts in total (2^60 - 1)
+			viol("cometbft-rejects-update:total-voting-power-overflow:by-"+lastOp, fmt.Sprintf("CometBFT UpdateWithChangeSet rejects %v: %v", res.Updates, res.ValSetErr))
 			return
 		}
 		if res.ValSetErr != nil {
